@@ -521,6 +521,68 @@ func main() {
 			rec(nil)
 		})
 
+		// every integer value of the two window parameters, far beyond the legal range (values
+		// that wrap around a narrower integer type must not come back as legal ones), plus the
+		// classic non-numbers
+		r.Part("E3b-window-values", func(t *explore.T) {
+			var vals []string
+			for n := 0; n <= 70000; n++ {
+				vals = append(vals, strconv.Itoa(n))
+			}
+			for _, base := range []uint64{1 << 31, 1 << 32, 1 << 62, 1 << 63} {
+				for d := uint64(0); d < 16; d++ {
+					vals = append(vals, strconv.FormatUint(base+d, 10))
+				}
+			}
+			for d := 0; d < 16; d++ {
+				vals = append(vals, "18446744073709551616"[:18]+fmt.Sprintf("%02d", 16+d), "1"+strings.Repeat("0", 30)+strconv.Itoa(d))
+			}
+			vals = append(vals, "+8", "-8", " 8", "8 ", "8.0", "0x8", "1e1", "", "٨", "８", "1_0", "８９")
+			// the six characters that share the high nibble of the ASCII digits
+			for _, c := range ":;<=>?" {
+				vals = append(vals, string(c), "0"+string(c), "1"+string(c), string(c)+"0", string(c)+string(c))
+			}
+			for _, name := range []string{"server_max_window_bits", "client_max_window_bits"} {
+				name := name
+				t.Par(len(vals), func(i int) {
+					v := vals[i]
+					t.Do(func() string { return fmt.Sprintf("%s=%q", name, v) }, func() *explore.Fail {
+						opt := httphead.Option{Name: []byte("permessage-deflate")}
+						opt.Parameters.Set([]byte(name), []byte(v))
+						n, aerr := strconv.Atoi(v)
+						legal := aerr == nil && n >= 8 && n <= 15 && v == strconv.Itoa(n)
+						var p P
+						err := p.Parse(opt)
+						e := &wsflate.Extension{}
+						ans, nerr := e.Negotiate(opt)
+						if legal {
+							if err != nil || nerr != nil {
+								return explore.Failf("legal-window-value-refused", "%v / %v", err, nerr)
+							}
+							got := p.ServerMaxWindowBits
+							if name[0] == 'c' {
+								got = p.ClientMaxWindowBits
+							}
+							if int(got) != n {
+								return explore.Failf("window-value-misparsed", "parsed %d", got)
+							}
+							t.Outcome("legal")
+							return nil
+						}
+						if v == "" && name[0] == 'c' {
+							t.Outcome("empty-value-open")
+							return nil
+						}
+						if err == nil || nerr == nil {
+							return explore.Failf("ill-valued-window-parameter-accepted", "Parse err=%v parsed %+v; Negotiate err=%v answer %q", err, p, nerr, optStr(ans))
+						}
+						t.Outcome("refused")
+						return nil
+					})
+				})
+			}
+		})
+
 		r.Part("E4-encode-parse-inverse", func(t *explore.T) {
 			for _, p := range offers {
 				p := p
